@@ -138,7 +138,7 @@ def check_verified_decrypt(ck, P, fn, tag, manifest_pred, cipher_pred, effects_e
 
 
 def run(ck):
-    P = ck.prog(['src/core/Node.cpp'])
+    P = ck.prog(['src/core/Node.cpp', 'src/crypto/CryptoManager.cpp'])
     # ---- receive_chunk ---------------------------------------------------------------------
     rc = P.fn(N + 'receive_chunk')
     mvar = None
@@ -332,3 +332,44 @@ def run(ck):
                                                     for j in ps.walk(fa[KR + f_][0][0]))
               for f_, k_ in (('shards', 1), ('threshold', 2), ('total_shares', 3)))
     ck.ob('C11.shards', 'C11.shards/record-from-arguments', okf, ps.loc(), 'the stored record takes shards, threshold and total_shares from the arguments')
+
+    # ---- the cipher wrapper: encrypt and decrypt are the same keystream application on every path --------------------------
+    APPLY11 = 'ephemeralnet::crypto::ChaCha20::apply'
+    for nm in ('encrypt', 'decrypt'):
+        f11 = P.fn(CM + nm)
+        ck.touch(f11)
+        ap = f11.calls(APPLY11)
+        cfg11 = Cfg.of(f11)
+        wit = cfg11.must_pass_from((cfg11.entry, -1), lambda e, s_=set(ap), f_=f11: e in s_ or any(f_.is_in(x, e) for x in s_) and f_.nodes[e]['k'] == 'ExprWithCleanups') if ap else ['no call']
+        ck.ob('C11.cipher', 'C11.cipher/%s/always-applies-keystream' % nm, len(ap) == 1 and wit is None, f11.loc(ap[0]) if ap else f11.loc(),
+              'CryptoManager::%s runs ChaCha20::apply on every path to a return, for every input length (an empty payload included): '
+              'what encrypt accepts, decrypt gives back' % nm)
+        if len(ap) != 1:
+            continue
+        a11 = f11.call_args(ap[0])
+        cnt = [j for j in f11.walk(a11[4]) if (f11.nodes[j].get('callee') or '').endswith('derive_counter')]
+        cnt_src = declref(f11, a11[4])
+        cnt_ok = bool(cnt)
+        if not cnt_ok and cnt_src is not None:
+            defs_ = all_defs(f11, cnt_src)
+            cnt_ok = len(defs_) == 1 and any((f11.nodes[j].get('callee') or '').endswith('derive_counter') and
+                                             declref(f11, f11.call_args(j)[0], f11.params[0]['d']) is not None for j in f11.walk(defs_[0][1]))
+        key_ok11 = any(f11.nodes[j]['k'] == 'MemberExpr' and (f11.nodes[j].get('m') or '').endswith('CryptoManager::key_') for j in f11.walk(a11[0]))
+        ck.ob('C11.cipher', 'C11.cipher/%s/apply-args' % nm, cnt_ok and key_ok11, f11.loc(ap[0]),
+              'CryptoManager::%s applies the keystream of (key_, nonce, derive_counter(chunk_id)) — the same triple on both sides' % nm)
+        # decrypt has no refusing return: its result is the buffer the keystream was applied into
+        if nm == 'decrypt':
+            out_d = declref(f11, a11[3])
+            rets = [i for i in f11.walk() if f11.nodes[i]['k'] == 'ReturnStmt']
+            bad = [r_ for r_ in rets if not any(f11.nodes[j]['k'] == 'DeclRefExpr' and f11.nodes[j].get('d') == out_d for j in f11.walk(r_))]
+            ck.ob('C11.cipher', 'C11.cipher/decrypt/returns-the-applied-buffer', out_d is not None and rets and not bad, f11.loc(bad[0]) if bad else f11.loc(),
+                  'every return of CryptoManager::decrypt yields the buffer ChaCha20::apply wrote (no input is refused)')
+    for nm, inner in (('encrypt_with_key', 'encrypt'), ('decrypt_with_key', 'decrypt')):
+        f11 = P.fn(CM + nm)
+        ck.touch(f11)
+        ic = f11.calls(CM + inner)
+        cfg11 = Cfg.of(f11)
+        wit = cfg11.must_pass_from((cfg11.entry, -1), lambda e, s_=set(ic), f_=f11: e in s_ or any(f_.is_in(x, e) for x in s_)) if ic else ['no call']
+        rets = [i for i in f11.walk() if f11.nodes[i]['k'] == 'ReturnStmt']
+        ck.ob('C11.cipher', 'C11.cipher/%s/forwards' % nm, len(ic) == 1 and wit is None and len(rets) == 1 and f11.is_in(ic[0], rets[0]), f11.loc(),
+              '%s is CryptoManager{key}.%s(...) on every path and returns its result' % (nm, inner))
